@@ -85,8 +85,9 @@ type ssaRendering struct {
 	ShortHour     bool     `json:"short_hour"`
 	ColorMode     int      `json:"color_mode"` // 0 decimal, 1 &H hex 8 digits upper, 2 &H hex lower, 3 hex minimal digits (>=6), 4 negative decimal when alpha>=0x80
 	Tertiary      bool     `json:"tertiary"`
-	BreakUpper    bool     `json:"break_upper"`         // \N instead of \n
-	BreakMix      bool     `json:"break_mix,omitempty"` // both forms inside one event, alternating
+	BreakUpper    bool     `json:"break_upper"`            // \N instead of \n
+	BreakMix      bool     `json:"break_mix,omitempty"`    // both forms inside one event, alternating
+	ForeignCols   bool     `json:"foreign_cols,omitempty"` // the Format lines list a column of another tool's dialect too (ignored, cells and all)
 	Junk          bool     `json:"junk"`
 	UnknownSec    bool     `json:"unknown_section"`
 	OtherEvents   bool     `json:"other_events"`
@@ -236,6 +237,9 @@ func renderSSA(d ssaDoc, r ssaRendering) []byte {
 		if r.FormatSpace {
 			sep = ", "
 		}
+		if r.ForeignCols && len(cols) > 0 {
+			cols = append(append(append([]string(nil), cols[:1]...), "X-Custom"), cols[1:]...)
+		}
 		emit(kv("Format", strings.Join(cols, sep)))
 		if r.CommentInBody {
 			emit("; a comment inside the styles section")
@@ -243,6 +247,10 @@ func renderSSA(d ssaDoc, r ssaRendering) []byte {
 		for _, st := range d.Styles {
 			var cells []string
 			for _, c := range cols {
+				if c == "X-Custom" {
+					cells = append(cells, "7")
+					continue
+				}
 				cells = append(cells, st.cell(c, r))
 			}
 			emit(kv("Style", strings.Join(cells, ",")))
@@ -265,11 +273,18 @@ func renderSSA(d ssaDoc, r ssaRendering) []byte {
 	if r.FormatSpace {
 		sep = ", "
 	}
-	emit(kv("Format", strings.Join(r.EventCols, sep)))
+	eventCols := r.EventCols
+	if n := len(eventCols); r.ForeignCols && n > 0 {
+		// ahead of the last column (the text takes the rest of the line)
+		eventCols = append(append(append([]string(nil), eventCols[:n-1]...), "X-Actor2"), eventCols[n-1])
+	}
+	emit(kv("Format", strings.Join(eventCols, sep)))
 	row := func(cat string, e ssaEventM) string {
 		var cells []string
-		for _, c := range r.EventCols {
+		for _, c := range eventCols {
 			switch c {
+			case "X-Actor2":
+				cells = append(cells, "someone")
 			case "Marked":
 				if e.Marked != nil && *e.Marked {
 					cells = append(cells, "Marked=1")
@@ -842,6 +857,7 @@ func genSSARendering(t *rapid.T, cols map[string]bool) ssaRendering {
 		Tertiary:      rapid.Bool().Draw(t, "tertiary"),
 		BreakUpper:    rapid.Bool().Draw(t, "breakupper"),
 		BreakMix:      rapid.IntRange(0, 3).Draw(t, "breakmix") == 0,
+		ForeignCols:   rapid.IntRange(0, 4).Draw(t, "foreigncols") == 0,
 		Junk:          rapid.Bool().Draw(t, "junk"),
 		UnknownSec:    rapid.Bool().Draw(t, "unknownsec"),
 		OtherEvents:   rapid.Bool().Draw(t, "otherevents"),
